@@ -568,6 +568,25 @@ func emptiedGroupsAreDropped(r *an.Run, rule string) {
 		}
 		// every group that is kept was tested to be non-empty
 		good, napp := true, 0
+		// ... and the list is not handed back as it came once groups may have been emptied: a return of the
+		// parameter itself that can be reached from a store that shortens a group's List (a "nothing else to do"
+		// fast path behind the loop) keeps the emptied groups in
+		var shortening []*ssa.BasicBlock
+		for _, in := range an.StoresIn(cf) {
+			if st, ok := in.(*ssa.Store); ok {
+				if fa, ok := st.Addr.(*ssa.FieldAddr); ok && an.IsNamed(fa.X.Type(), "go/ast", "CommentGroup") && fieldNameOf(fa) == "List" {
+					shortening = append(shortening, st.Block())
+				}
+			}
+		}
+		afterShortening := an.Reach(shortening, nil)
+		for _, ret := range an.Returns(cf) {
+			for _, leaf := range phiLeaves(ret.Results[0]) {
+				if prm, isParam := leaf.(*ssa.Parameter); isParam && isCommentGroupList(prm.Type()) && afterShortening[ret.Block()] {
+					good = false
+				}
+			}
+		}
 		for _, ret := range an.Returns(cf) {
 			// a filter helper with the predicate len(cg.List) > 0
 			if fc, isCall := ret.Results[0].(*ssa.Call); isCall {
